@@ -80,6 +80,21 @@ def cmp_expr(kind, got, val, tol=None):
             return f'match {got} with {pat} => true | _ => false end'
         pat = {(True, True): 'Some (Returns g_)', (True, False): 'Some g_', (False, True): 'Returns g_'}[(kind.startswith('O'), 'X' in kind)]
         return f'match {got} with {pat} => {inner("g_")} | _ => false end'
+    if kind in ('XLNODE', 'XSREP'):
+        # Gen/Nodelist.v: outcome (list (gnode float)) / outcome (segrep float); the Python side is a list of Node / a
+        # SegmentRepresentation (segments compared class by class, `path.closed` with sr_path), or a PyRaised
+        if isinstance(val, PyRaised): return f'match {got} with Raises {val.exc} => true | _ => false end'
+        if kind == 'XLNODE': return f'match {got} with Returns g_ => list_eqb gnode_feq g_ {cnodes(val)} | _ => false end'
+        return (f'match {got} with Returns g_ => Bool.eqb (sr_path g_) {vlib.cbool(bool(val.path.closed))} && '
+                f'list_eqb gsegment_feq (sr_segments g_) {vlib.clist([vlib.csegment(x) for x in val.segments])} | _ => false end')
+    if kind == 'OLSEG':     # Gen/Split.v: option (list (segment float)), None = out of fuel (never expected); Python: the path afterwards
+        segs = val.asSegments()
+        return f'match {got} with Some g_ => list_eqb gsegment_feq g_ {vlib.clist([vlib.csegment(x) for x in segs])} | None => false end'
+    if kind in ('XDECK', 'XLSS'):
+        # Gen/Sweep.v: outcome (list (shape * bbox)) -- a deque of (object, bounds) -- / outcome (list (shape * shape)); Python never raises here
+        if isinstance(val, PyRaised): return f'match {got} with Raises {val.exc} => true | _ => false end'
+        if kind == 'XDECK': return f'match {got} with Returns g_ => list_eqb gitem_feq g_ {vlib.clist([citem(x) for x in val])} | _ => false end'
+        return f'match {got} with Returns g_ => list_eqb gpair_feq g_ {vlib.clist(["(" + cshape(a) + ", " + cshape(b) + ")" for a, b in val])} | _ => false end'
     if kind == 'LIX':
         items = [f'({vlib.fhex(i.t1)}, {vlib.cpt(i.point)}, {vlib.fhex(i.t2)})' for i in val]
         f = 'ix_feq' if tol is None else f'(ix_fclose {vlib.fhex(tol)})'
@@ -108,6 +123,25 @@ def catching(f, floor=False):
     return g
 
 
+NODE_TYPES = {'line': 'Nt_line', 'curve': 'Nt_curve', 'offcurve': 'Nt_offcurve'}
+def cnode(n): return f'(GNode {vlib.cpt(n.point)} {NODE_TYPES[n.type]})'
+def cnodes(nl): return vlib.clist([cnode(n) for n in nl])
+
+
+class Shp:
+    """an object as the sweep sees one: an identity (the tag stands for id()) and bounds()"""
+    def __init__(self, tag, b): self.tag, self.b = tag, b
+    def bounds(self): return self.b
+    def __repr__(self): return f'Shp({self.tag}, {self.b.bl.x},{self.b.bl.y},{self.b.tr.x},{self.b.tr.y})'
+class Cond:
+    """a `condition` for dequefilter: the Python callable and the same function as a Coq term"""
+    def __init__(self, py, coq, desc): self.py, self.coq, self.desc = py, coq, desc
+    def __repr__(self): return self.desc
+def cbox(b): return f'(BB {vlib.cpt(b.bl)} {vlib.cpt(b.tr)})'
+def cshape(o): return f'({o.tag}%nat, {cbox(o.b)})'
+def citem(it): return f'({cshape(it[0])}, {cbox(it[1])})'
+
+
 def cedge(l):
     """a Line produced by flatten, with its _orig attribute"""
     o = getattr(l, '_orig', None)
@@ -128,6 +162,14 @@ def carg(kind, v):
     if kind == 'BB': return f'(BB {vlib.cpt(v.bl)} {vlib.cpt(v.tr)})'
     if kind == 'PATH': return vlib.clist([vlib.csegment(x) for x in v.asSegments()])
     if kind == 'EDGE': return cedge(v)
+    if kind == 'SREP': return f'(MkSegRep {vlib.cbool(bool(v.path.closed))} {vlib.clist([vlib.csegment(x) for x in v.segments])})'
+    if kind == 'LXY': return vlib.clist([f'({vlib.fhex(x)}, {vlib.fhex(y)})' for x, y in v])
+    if kind == 'PCLOSED': return vlib.cbool(bool(v.closed))
+    if kind == 'LNODE': return cnodes(v)
+    if kind == 'DECK': return vlib.clist([citem(x) for x in v])
+    if kind == 'COND': return v.coq
+    if kind == 'SHAPES': return vlib.clist([cshape(o) for o in v])
+    if kind == 'SPLITLIST': return vlib.clist([f'({vlib.csegment(sg)}, {vlib.fhex(t)})' for sg, t in v])
     raise ValueError(kind)
 
 
@@ -230,14 +272,129 @@ def g_edge(rng):
     l = GEN['sseg2'](rng) if rng.random() < 0.5 else gen.segment(rng, order=2)[0]
     if rng.random() < 0.6: l._orig = gen.segment(rng)[0]
     return l
+def g_nlpath(rng, nseg, closed):
+    """a connected path of nseg segments of mixed classes; a closed one usually ends where it starts, sometimes only within the
+    tolerance of isclose (1e-9 relative), sometimes nowhere near"""
+    def pt():
+        r = rng.random()
+        if r < 0.5: return Point(float(rng.randint(-9, 9)), float(rng.randint(-9, 9)))
+        if r < 0.6: return Point(float(rng.randint(-900000, 900000)), float(rng.randint(-900, 900)))
+        return Point(rng.uniform(-500, 500), rng.uniform(-500, 500))
+    start = pt(); cur = start; segs = []
+    for i in range(nseg):
+        k = rng.choice([2, 3, 4])
+        if closed and i == nseg - 1 and rng.random() < 0.8:
+            end = start.clone() if rng.random() < 0.6 else Point(start.x * (1 + rng.choice([4e-10, -3e-10, 2e-9, 0])), start.y * (1 + rng.choice([0, 5e-10, -2e-9])))
+        else: end = pt()
+        segs.append(gen.KINDS[k](cur.clone(), *[pt() for _ in range(k - 2)], end))
+        cur = end
+    return segs
+def g_srep(rng):
+    """a SegmentRepresentation: 0 (toNodelist raises IndexError) to 7 segments"""
+    from beziers.path import BezierPath
+    from beziers.path.representations.Segment import SegmentRepresentation
+    path = BezierPath(); path.closed = rng.random() < 0.5
+    n = rng.choice([0, 1, 1, 2, 3, 4, 5, 7])
+    segs = g_nlpath(rng, n, path.closed) if rng.random() < 0.7 else [gen.segment(rng)[0] for _ in range(n)]
+    return SegmentRepresentation(path, segs)
+def g_lxy(rng):
+    """the `seg` argument of appendSegment: a list of coordinate pairs, usually 2, 3 or 4 of them (else ValueError)"""
+    n = rng.choice([2, 2, 3, 3, 4, 4, 0, 1, 5, 6])
+    return [(rng.choice([float(rng.randint(-9, 9)), rng.uniform(-500, 500)]), rng.choice([float(rng.randint(-9, 9)), rng.uniform(-500, 500)])) for _ in range(n)]
+def g_pclosed(rng):
+    from beziers.path import BezierPath
+    p = BezierPath(); p.closed = rng.random() < 0.5
+    return p
+def g_nodelist(rng):
+    """node lists: the ones toNodelist produces (also rotated, and with the repeated start dropped), arbitrary ones (including the ones
+    fromNodelist rejects: runs of more than two off-curve nodes -> ValueError), all off-curve, empty (IndexError)"""
+    from beziers.path import BezierPath
+    from beziers.path.representations.Segment import SegmentRepresentation
+    from beziers.path.representations.Nodelist import Node
+    r = rng.random()
+    if r < 0.55:
+        closed = rng.random() < 0.6
+        nl = SegmentRepresentation(BezierPath(), g_nlpath(rng, rng.randint(1, 7), closed)).toNodelist()
+        if rng.random() < 0.4: nl = nl[1:]          # closed contours are stored without the repeated start
+        if rng.random() < 0.6:
+            k = rng.randrange(len(nl)); nl = nl[k:] + nl[:k]
+        return nl
+    if r < 0.9:
+        return [Node(float(rng.randint(-5, 5)), float(rng.randint(-5, 5)), rng.choice(['line', 'curve', 'offcurve', 'offcurve'])) for _ in range(rng.randint(1, 9))]
+    if r < 0.96:
+        return [Node(float(rng.randint(-5, 5)), float(rng.randint(-5, 5)), 'offcurve') for _ in range(rng.randint(1, 4))]
+    return []
+def g_sweepbox(rng, grid):
+    if grid:
+        x0, x1 = sorted([rng.randint(0, 6), rng.randint(0, 6)]); y0, y1 = sorted([rng.randint(0, 6), rng.randint(0, 6)])
+    else:
+        x0, x1 = sorted([rng.uniform(-100, 100), rng.uniform(-100, 100)]); y0, y1 = sorted([rng.uniform(-100, 100), rng.uniform(-100, 100)])
+    b = BoundingBox(); b.bl, b.tr = Point(float(x0), float(y0)), Point(float(x1), float(y1))
+    if rng.random() < 0.08: b.bl.x = -0.0 if rng.random() < 0.5 else 0.0
+    return b
+def g_shapes(rng):
+    """a collection for the sweep: 0..9 shapes tagged by their position; on a small grid (many equal keys: the order among ties is
+    the insertion order of the stable sort) or with random float coordinates"""
+    grid = rng.random() < 0.6
+    return [Shp(i, g_sweepbox(rng, grid)) for i in range(rng.choice([0, 1, 2, 3, 4, 6, 9]))]
+def g_deck(rng):
+    """a deque of (object, bounds) pairs as bbox_intersections builds them; tags may repeat (the same object twice) and need not be in order"""
+    n = rng.choice([0, 1, 2, 3, 5, 8])
+    out = []
+    for _ in range(n):
+        o = Shp(rng.randint(0, 4), g_sweepbox(rng, True))
+        out.append((o, o.b))
+    return out
+def g_cond(rng):
+    r = rng.random()
+    if r < 0.5:
+        t = rng.randint(0, 4)     # lambda i: i[0] != o  -- the condition remove_from uses; o is any shape with that identity
+        return Cond(lambda i: i[0].tag != t, f'(fun i => negb (shape_eqb (fst i) ({t}%nat, BB (P 0%float 0%float) (P 0%float 0%float))))', f'tag != {t}')
+    if r < 0.8:
+        c = float(rng.randint(0, 6))
+        return Cond(lambda i: i[1].left < c, f'(fun i => PrimFloat.ltb (px (bl (snd i))) {vlib.fhex(c)})', f'left < {c}')
+    b = rng.random() < 0.5
+    return Cond(lambda i: b, f'(fun _ => {vlib.cbool(b)})', f'const {b}')
+def g_splitpath(rng):
+    """a path for splitAtPoints / addExtremes: 0..6 segments of mixed classes, sometimes with a segment repeated BY VALUE (the dict
+    is keyed by value: the second occurrence finds the list already consumed) or differing from another only by -0.0 / 0.0"""
+    from beziers.path import BezierPath
+    n = rng.choice([0, 1, 2, 3, 3, 4, 6])
+    segs = []
+    for _ in range(n):
+        sg = gen.segment(rng, fam=rng.choice(['int', 'float', 'grid', 'smallint', 'collinear']))[0]
+        segs.append(sg)
+    if segs and rng.random() < 0.35:
+        segs.insert(rng.randrange(len(segs) + 1), rng.choice(segs).clone())
+    if segs and rng.random() < 0.15:
+        c = rng.choice(segs).clone()
+        c.points[0] = Point(c.points[0].x + 0.0, -0.0 if c.points[0].y == 0 else c.points[0].y)
+        segs.append(c)
+    return BezierPath.fromSegments(segs)
+def g_splitlist_for(rng, path):
+    """split points: (segment of the path | a value-equal copy | a segment that is not in the path, time); times in [0, 1], repeated,
+    below the 1e-8 threshold, and rarely 1.0 (then mapx divides by zero when another time follows: Python raises, the case is dropped)"""
+    segs = path.asSegments()
+    out = []
+    for _ in range(rng.choice([0, 1, 2, 3, 5, 8])):
+        r = rng.random()
+        if segs and r < 0.6: sg = rng.choice(segs)
+        elif segs and r < 0.85: sg = rng.choice(segs).clone()
+        else: sg = gen.segment(rng)[0]
+        t = rng.choice([gen.tvalue(rng), rng.random(), rng.random(), 0.5, 0.25, 1e-9, 0.0, 5e-9, 0.75, 1.0 if rng.random() < 0.15 else 0.9])
+        out.append((sg, t))
+    if out and rng.random() < 0.3: out.append((out[0][0], out[0][1]))
+    return out
 def g_degree(rng): return rng.choice([8, 8.0, float(rng.randint(1, 40)), rng.uniform(0.5, 60), 1.0, 4.0, 16.0, 300.0])
 def g_size(rng): return rng.choice([float(rng.randint(1, 5000)), rng.uniform(0.5, 5000), rng.uniform(-50, 50), 0.0])
 def g_sup(rng): return rng.choice([GS.CIRCULAR_SUPERNESS, rng.uniform(0.1, 1.2), 1.0, 0.0, rng.uniform(-2, 2)])
 GEN = {'S': g_S, 't': g_t, 'angle': g_angle, 'P': g_P, 'M': g_M, 'seg2': g_seg(2), 'seg3': g_seg(3), 'seg4': g_seg(4), 'BB': g_BB, 'OS': g_OS, 'B': g_B,
        'OP': g_OP, 'OBB': g_OBB, 'LP': g_LP, 'LP2': g_LP2, 'LS': g_LS, 'size': g_size, 'sup': g_sup,
        'PATH': g_path, 'pt': g_pt, 'EDGE': g_edge, 'SPATH': g_spath,
-       'sseg2': g_sseg(2), 'sseg3': g_sseg(3), 'sseg4': g_sseg(4), 'nsamp': g_nsamp, 'degree': g_degree}
-KIND = {'t': 'S', 'angle': 'S', 'size': 'S', 'sup': 'S', 'LP2': 'LP', 'sseg2': 'seg2', 'sseg3': 'seg3', 'sseg4': 'seg4', 'nsamp': 'S', 'degree': 'S', 'pt': 'S', 'SPATH': 'PATH'}
+       'sseg2': g_sseg(2), 'sseg3': g_sseg(3), 'sseg4': g_sseg(4), 'nsamp': g_nsamp, 'degree': g_degree,
+       'SREP': g_srep, 'LXY': g_lxy, 'PCLOSED': g_pclosed, 'LNODE': g_nodelist,
+       'DECK': g_deck, 'COND': g_cond, 'SHAPES': g_shapes, 'SPLITPATH': g_splitpath, 'SPLITLIST': lambda rng: []}
+KIND = {'t': 'S', 'angle': 'S', 'size': 'S', 'sup': 'S', 'LP2': 'LP', 'sseg2': 'seg2', 'sseg3': 'seg3', 'sseg4': 'seg4', 'nsamp': 'S', 'degree': 'S', 'pt': 'S', 'SPATH': 'PATH', 'SPLITPATH': 'PATH'}
 
 
 class K:
@@ -340,6 +497,36 @@ PATH_KERNELS = [
     K('Cubic_flatten', ['sseg4', 'degree'], catching(lambda s, d: s.flatten(d)), 'OXLE', term=fuelled('Cubic_flatten')),
 ]
 NEW_KERNELS2 = SAMPLE_KERNELS + PATH_KERNELS
+# round 3 -- path/representations (Gen/Nodelist.v): IndexError of segments[0] / nodelist[firstOncurve], ValueError("Unknown segment type")
+def _SR():
+    from beziers.path.representations.Segment import SegmentRepresentation
+    return SegmentRepresentation
+NODELIST_KERNELS = [
+    K('SegRep_toNodelist', ['SREP'], catching(lambda r: r.toNodelist()), 'XLNODE'),
+    K('SegRep_appendSegment', ['SREP', 'LXY'], catching(lambda r, seg: (r.appendSegment(seg), r)[1], floor=True), 'XSREP'),
+    K('SegRep_fromNodelist', ['PCLOSED', 'LNODE'], catching(lambda p, nl: _SR().fromNodelist(p, nl), floor=True), 'XSREP'),
+]
+# round 3 -- utils/linesweep.py (Gen/Sweep.v)
+def _dequefilter(deck, cond):
+    from collections import deque
+    from beziers.utils.linesweep import dequefilter
+    d = deque(deck)
+    dequefilter(d, cond.py)
+    return list(d)
+def _bbox_intersections(sa, sb):
+    from beziers.utils.linesweep import bbox_intersections
+    return bbox_intersections(sa, sb)
+SWEEP_KERNELS = [
+    K('linesweep_dequefilter', ['DECK', 'COND'], catching(_dequefilter), 'XDECK'),
+    K('linesweep_bbox_intersections', ['SHAPES', 'SHAPES'], catching(_bbox_intersections), 'XLSS'),
+]
+# round 3 -- path/__init__.py splitAtPoints / addExtremes (Gen/Split.v); ZeroDivisionError of mapx (a split at exactly 1.0 followed by
+# another one) is not modelled: those cases are dropped by cross_check, as every ZeroDivisionError is
+SPLIT_KERNELS = [
+    K('Path_splitAtPoints', ['SPLITPATH', 'SPLITLIST'], lambda p, sl: (p.splitAtPoints(sl), p)[1], 'OLSEG', term=fuelled('Path_splitAtPoints')),
+    K('Path_addExtremes', ['SPLITPATH'], lambda p: p.addExtremes(), 'OLSEG', term=fuelled('Path_addExtremes')),
+]
+NEW_KERNELS3 = NODELIST_KERNELS + SWEEP_KERNELS + SPLIT_KERNELS
 
 KERNELS = {k.name: k for k in (
     [K('Point___add__', ['P', 'P'], lambda a, b: a + b, 'P'), K('Point___sub__', ['P', 'P'], lambda a, b: a - b, 'P'),
@@ -377,15 +564,21 @@ KERNELS = {k.name: k for k in (
      K('Quad_toCubicBezier', ['seg3'], lambda s: s.toCubicBezier(), 'seg4'),
      K('Cubic_findExtremes_False', ['seg4'], lambda s: s.findExtremes(), 'LS'),
      K('Cubic_hasLoop', ['seg4'], lambda s: s.hasLoop, 'OSS'),
-     ] + seg_kernels('seg2') + seg_kernels('seg3') + seg_kernels('seg4') + NEW_KERNELS + NEW_KERNELS2)}
+     ] + seg_kernels('seg2') + seg_kernels('seg3') + seg_kernels('seg4') + NEW_KERNELS + NEW_KERNELS2 + NEW_KERNELS3)}
 
 # comparison of flattened edges: the line and its _orig (None, or the curve it was cut from, class included)
 PREAMBLE = '''Definition gsegment_feq (a b : segment float) : bool :=
   match a, b with SLine x, SLine y => seg2_feq x y | SQuad x, SQuad y => seg3_feq x y | SCubic x, SCubic y => seg4_feq x y | _, _ => false end.
 Definition gedge_feq (a b : seg2 float * option (segment float)) : bool :=
   seg2_feq (fst a) (fst b) && match snd a, snd b with None, None => true | Some x, Some y => gsegment_feq x y | _, _ => false end.
+Definition gnode_feq (a b : gnode float) : bool := pt_feq (n_point a) (n_point b) && nodetype_eqb (n_type a) (n_type b).
+Definition gbox_feq (a b : bbox float) : bool := pt_feq (bl a) (bl b) && pt_feq (tr a) (tr b).
+Definition gshape_feq (a b : shape float) : bool := Nat.eqb (fst a) (fst b) && gbox_feq (snd a) (snd b).
+Definition gitem_feq (a b : shape float * bbox float) : bool := gshape_feq (fst a) (fst b) && gbox_feq (snd a) (snd b).
+Definition gpair_feq (a b : shape float * shape float) : bool := gshape_feq (fst a) (fst b) && gshape_feq (snd a) (snd b).
 '''
-IMPORTS = ['Gen.Utils', 'Gen.Point', 'Gen.Affine', 'Gen.BBox', 'Gen.Line', 'Gen.Quad', 'Gen.Cubic', 'Gen.CurveDist', 'Gen.Shapes', 'Gen.Fit', 'Gen.Sample']
+IMPORTS = ['Gen.Utils', 'Gen.Point', 'Gen.Affine', 'Gen.BBox', 'Gen.Line', 'Gen.Quad', 'Gen.Cubic', 'Gen.CurveDist', 'Gen.Shapes', 'Gen.Fit', 'Gen.Sample',
+           'Gen.Nodelist', 'Gen.Sweep', 'Gen.Split']
 
 
 def clone_arg(kind, v):
@@ -401,6 +594,15 @@ def clone_arg(kind, v):
         l = v.clone()
         if hasattr(v, '_orig'): l._orig = v._orig
         return l
+    if kind == 'SREP':
+        from beziers.path import BezierPath
+        from beziers.path.representations.Segment import SegmentRepresentation
+        p = BezierPath(); p.closed = v.path.closed
+        return SegmentRepresentation(p, [x.clone() for x in v.segments])
+    if kind == 'LXY': return list(v)
+    if kind == 'LNODE':
+        from beziers.path.representations.Nodelist import Node
+        return [Node(n.x, n.y, n.type) for n in v]
     if kind in ('BB', 'OBB'):
         b = BoundingBox()
         if v.bl is not None: b.bl, b.tr = v.bl.clone(), v.tr.clone()
@@ -433,6 +635,7 @@ def special_args(k, rng, args):
             args[2] = u
         if data and rng.random() < 0.5:   # data near the curve
             args[1] = [bez.pointAtTime(rng.random()) + Point(rng.uniform(-2, 2), rng.uniform(-2, 2)) for _ in data]
+    if name == 'Path_splitAtPoints': args[1] = g_splitlist_for(rng, args[0])
     if name == 'BBox_extend_Point' and args[0].bl is not None and rng.random() < 0.6:
         b = args[0]   # points on the edges / at the corners / just inside and outside
         xs = [b.bl.x, b.tr.x, (b.bl.x + b.tr.x) / 2, b.bl.x - 1.0, b.tr.x + 0.5, rng.uniform(b.bl.x - 3, b.tr.x + 3)]
